@@ -42,6 +42,37 @@ class _Names:
             raise AnalysisError("anchor vanished: no TokenMatcher method stores token.matched_type (the matched-token sink)")
         return self._get("SINK", find)
 
+    # the sink's parameters by what they become: {role: parameter name}, roles named after the sink's parameters at the pinned
+    # commit (token, matched_type, text, keyword, keyword_type, indent, items); the token attributes are the anchors
+    @property
+    def SINK_PARAMS(self) -> dict:
+        def find():
+            fi = facts().cls(MQ).find_method(self.SINK)
+            a = fi.node.args
+            params = [p.arg for p in a.posonlyargs + a.args + a.kwonlyargs][1:]
+            attr_role = {"matched_type": "matched_type", "matched_text": "text", "matched_keyword": "keyword", "matched_keyword_type": "keyword_type",
+                         "matched_indent": "indent", "matched_items": "items"}
+            roles = {}
+            tok = None
+            # by effect: the sink interpreted on symbolic arguments - which parameter each token attribute ends up holding
+            from .absint import new_interp
+            from . import nf
+            I = new_interp()
+            _tree, _rv, st = I.run(fi.qualname)
+            for (base, attr), v in (st.ext if st is not None else {}).items():
+                if base[0] == "param" and base[1] in params and attr in attr_role:
+                    tok = tok or base[1]
+            for (base, attr), v in (st.ext if st is not None else {}).items():
+                if base == ("param", tok) and attr in attr_role:
+                    used = [x[1] for x in nf.subterms(v) if x[0] == "param" and x[1] in params and x[1] != tok]
+                    if used:
+                        roles[attr_role[attr]] = used[0]
+            if tok is None or set(roles) != set(attr_role.values()):
+                raise AnalysisError(f"anchor vanished: parameters of the matched-token sink not identifiable by use: {roles}")
+            roles["token"] = tok
+            return roles
+        return self._get("SINK_PARAMS", find)
+
     # the dialect switch: the method (not __init__/reset) that looks a dialect up by name (Dialect.for_name) and installs it
     def _dialect_switch(self):
         def find():
